@@ -76,7 +76,10 @@ def modelObs (b : Bytes) : Option Obs × String :=
     | .reject s => "size:" ++ s
     | .panic _ => "size:panic"
     | .ok n => match rt with
-      | .ok nm => if nm.isEmpty then "ok-no-name" else "ok-sni"
+      | .ok nm =>
+        -- accepted: `:std-rejects` marks the lenient class (a standard server refuses these bytes, see the
+        -- `malformed_accepted_exception_*` theorems of Props/C10Std.lean)
+        (if nm.isEmpty then "ok-no-name" else "ok-sni") ++ (if (stdRoute b).isNone then ":std-rejects" else "")
       | .reject s =>
         if s == "read-full" then
           -- a truncated record: fewer than `n` bytes arrived. The tag names what `readServerName` makes of the
@@ -236,7 +239,8 @@ def modelH : Handler := fun inp impl => do
   let (m, mtag) := modelObs b
   let mj := (obsJson m).setObjVal! "hex" (hexEncode b)
   let wf : Bool := decide (WellFormed h) && decide (FitsRecord h)
-  let tag := if wf then "wf-" ++ (match h.extensions with | none => "noext" | some es => sniPos es)
+  let tag := if wf then "wf-" ++ (match h.extensions with | none => "noext" | some es => sniPos es) ++
+                 (if b.length ≥ 16383 + 5 then ":largest-record" else "")
              else "nonwf-" ++ mtag
   if isPanicJ impl then
     return ({ model := mj, agree := m.isNone, spec := false, nontrivial := true, tag := "impl-panic:" ++ tag } : Verdict).toJson
@@ -244,7 +248,7 @@ def modelH : Handler := fun inp impl => do
   let orc ← readOracles impl
   let ihex ← impl.getObjValAs? String "hex"
   let want := hexEncode (sniOf h)
-  let encOk := ihex == hexEncode b
+  let encOk := ihex == hexEncode b && (!wf || stdRoute b == some (sniOf h))   -- `Props.C10Std.std_route_record`
   let wfSpec := !wf ||
     (o.ok && o.name == want && o.size == some b.length && o.route == nonEmpty want &&
      orc.strictOk && orc.strictName == want && (!orc.tlsOk || orc.tlsName == want))
